@@ -1,36 +1,27 @@
-//! Counting global allocator: bytes requested and the largest single request since the last reset.
-//! A request above REFUSE_ABOVE is refused (returns null) so that a bug that tries to allocate a
-//! length taken from untrusted input cannot take the harness down; it is counted all the same.
+//! Counting global allocator: bytes requested and the largest single request since the last reset,
+//! per thread (thread-local cells with constant initialisers: no allocation on access).
 use std::alloc::{GlobalAlloc, Layout, System};
-use std::sync::atomic::{AtomicUsize, Ordering::Relaxed};
+use std::cell::Cell;
 
 pub struct Counting;
-pub static TOTAL: AtomicUsize = AtomicUsize::new(0);
-pub static MAX_ONE: AtomicUsize = AtomicUsize::new(0);
-pub static COUNT: AtomicUsize = AtomicUsize::new(0);
-
+thread_local! {
+    static TOTAL: Cell<usize> = const { Cell::new(0) };
+    static MAX_ONE: Cell<usize> = const { Cell::new(0) };
+}
+fn note(n: usize) {
+    let _ = TOTAL.try_with(|t| t.set(t.get().wrapping_add(n)));
+    let _ = MAX_ONE.try_with(|m| if n > m.get() { m.set(n) });
+}
 unsafe impl GlobalAlloc for Counting {
-    unsafe fn alloc(&self, l: Layout) -> *mut u8 {
-        TOTAL.fetch_add(l.size(), Relaxed);
-        MAX_ONE.fetch_max(l.size(), Relaxed);
-        COUNT.fetch_add(1, Relaxed);
-        System.alloc(l)
-    }
+    unsafe fn alloc(&self, l: Layout) -> *mut u8 { note(l.size()); System.alloc(l) }
     unsafe fn dealloc(&self, p: *mut u8, l: Layout) { System.dealloc(p, l) }
-    unsafe fn alloc_zeroed(&self, l: Layout) -> *mut u8 {
-        TOTAL.fetch_add(l.size(), Relaxed);
-        MAX_ONE.fetch_max(l.size(), Relaxed);
-        COUNT.fetch_add(1, Relaxed);
-        System.alloc_zeroed(l)
-    }
+    unsafe fn alloc_zeroed(&self, l: Layout) -> *mut u8 { note(l.size()); System.alloc_zeroed(l) }
     unsafe fn realloc(&self, p: *mut u8, l: Layout, new: usize) -> *mut u8 {
-        if new > l.size() { TOTAL.fetch_add(new - l.size(), Relaxed); }
-        MAX_ONE.fetch_max(new, Relaxed);
-        COUNT.fetch_add(1, Relaxed);
+        if new > l.size() { let _ = TOTAL.try_with(|t| t.set(t.get().wrapping_add(new - l.size()))); }
+        let _ = MAX_ONE.try_with(|m| if new > m.get() { m.set(new) });
         System.realloc(p, l, new)
     }
 }
-
-pub fn reset() { TOTAL.store(0, Relaxed); MAX_ONE.store(0, Relaxed); COUNT.store(0, Relaxed); }
-pub fn total() -> usize { TOTAL.load(Relaxed) }
-pub fn max_one() -> usize { MAX_ONE.load(Relaxed) }
+pub fn reset() { TOTAL.with(|t| t.set(0)); MAX_ONE.with(|m| m.set(0)); }
+pub fn total() -> usize { TOTAL.with(|t| t.get()) }
+pub fn max_one() -> usize { MAX_ONE.with(|m| m.get()) }
